@@ -203,3 +203,32 @@ pub fn inject_cr(a: &mut crate::adoc::ANode, rng: &mut crate::rng::Rng) -> bool 
     });
     true
 }
+
+/// split up to `n` text nodes into two ADJACENT text nodes (trees only the API can build, with consolidation off);
+/// a split right after "]]" or "]" is preferred
+pub fn split_text_nodes(a: &mut crate::adoc::ANode, rng: &mut crate::rng::Rng, n: &mut usize) {
+    use crate::adoc::*;
+    let mut i = 0;
+    while i < a.children.len() {
+        if *n > 0 && a.children[i].kind == AKind::Text && a.children[i].text.chars().count() >= 2 && rng.chance(1, 2) {
+            let chars: Vec<char> = a.children[i].text.chars().collect();
+            let mut cut = 1 + rng.below(chars.len() - 1);
+            if let Some(p) = a.children[i].text.find("]]") {
+                let c = a.children[i].text[..p + 2].chars().count();
+                if c < chars.len() && rng.chance(2, 3) {
+                    cut = c;
+                }
+            }
+            let left: String = chars[..cut].iter().collect();
+            let right: String = chars[cut..].iter().collect();
+            a.children[i].text = left;
+            a.children.insert(i + 1, ANode::text(&right));
+            *n -= 1;
+            i += 1;
+        }
+        i += 1;
+    }
+    for c in a.children.iter_mut() {
+        split_text_nodes(c, rng, n);
+    }
+}
